@@ -135,7 +135,11 @@ BigCases == {<<Arch(1, MaxInt31)>>, <<Arch(1, MaxRecords)>>, <<Arch(1, MaxRecord
              <<Arch(1, 357913900), Arch(60, 35740800)>>, <<Arch(1, 322000000), Arch(60, 35740800)>>,
              <<Arch(1, 346896000), Arch(60, 35740800), Arch(3600, 595704)>>,
              <<Arch(1, 715827880), Arch(60, 35740800)>>, <<Arch(1, 715827884), Arch(2, 1073741000)>>,
-             <<Arch(1, 1000), Arch(10, 200000000), Arch(100, 21474836)>>}
+             <<Arch(1, 1000), Arch(10, 200000000), Arch(100, 21474836)>>,
+             \* retentions of 2^31 and more whose low 32 bits are a small POSITIVE number (a 32-bit product would look fine)
+             <<Arch(1073741824, 5)>>, <<Arch(1073741824, 9)>>, <<Arch(1431655766, 3)>>, <<Arch(65536, 65537)>>, <<Arch(65537, 65537)>>,
+             <<Arch(60, 1440), Arch(3600, 1500000)>>, <<Arch(1, 100), Arch(1073741824, 5)>>, <<Arch(2147483647, 3)>>,
+             <<Arch(1073741824, 1)>>, <<Arch(1073741823, 2)>>}
 AllCases == SmallCases \cup TripleCases \cup BigCases \cup {<<>>}
 
 CONSTANT Export
